@@ -67,7 +67,7 @@ func c12Marshal(v any) (res any) {
 	if err != nil {
 		return c12M{"t": "err", "msg": err.Error()}
 	}
-	return c12Bytes(string(bs))
+	return c12M{"t": "bytes", "b": c12Bytes(string(bs))}
 }
 
 type c12Runner struct {
